@@ -104,7 +104,11 @@ def program(ci, c):
                   "hint_struct": "#[type_hint(as {})]", "hint_unit": "#[type_hint(as Unit)]",
                   "hint_tuple_ded": "#[type_hint(as Unit)] #[type_hint(D| as ())] #[type_hint(DI| as ())]"}[v["it"]]
             if v.get("vg", 0):
-                va += " #[ghosts(" + ", ".join(f"{l}: {{vgh({i},{k})}}" for k, l in enumerate(vgleaves(v), 1)) + ")]"
+                entries = ", ".join(f"{l}: {{vgh({i},{k})}}" for k, l in enumerate(vgleaves(v), 1))
+                if c.get("vgm", "both") == "flav":
+                    va += f" #[o2o(ghosts_ref({entries}))]" if byref else f" #[o2o(ghosts_owned({entries}))]"
+                else:
+                    va += f" #[ghosts({entries})]"
             if v["shape"] == "unit":
                 body = f"V{i}"
             elif v["shape"] == "named":
